@@ -8,6 +8,8 @@ type RCallGraph struct {
 }
 
 func NewRCallGraph() RCallGraph {
+	loopCount = 0
+	lastChild = ""
 	return RCallGraph{}
 }
 
